@@ -10,6 +10,16 @@ CLAIMED = {
          "TLC model-checks the parametric field specification (GF.tla, GF2Poly.tla) exhaustively on GF(4), GF(8), GF(16), GF(256) and small GF(2)[x] and walks the 65535-step generator cycle of GF(2^16)/0x1100B; the real gf2p16.T.Times/Div/Inverse/Pow and gf2.Poly64.Times/Div are bound to it by trace validation: >10^6 recorded products/quotients (every a with every basis element and boundary partners), every inverse, Pow at every exponent class up to 2^32-1 are judged by TLC with the same operators instantiated at W=16; bilinear-closure sweeps over all 2^32 pairs extend the judged basis products to every pair.",
          "Trusts TLC, the Bitwise/Json/Functions Java overrides, and that the Go closure sweep reports its mismatches (it only nominates; the products it relies on are judged by TLC).",
          "DESIGN.md section 5 C08"),
+ "C01": ("model_checking",
+         "TLA+ directory state machine Par2Archive.tla: TLC exhausts bounded instances (damage menu x volume subsets) checking C01 action properties with real GF(2^16) singularity; every emitted Repair transition replayed on real par2.Create/Repair; seeded large sets judged by TLC trace specs",
+         "TLC model-checks the PAR2 directory state machine (Par2Archive.tla with Par2Scan, Par2Const, Matrix over GF(2^16)) on bounded instances and proves the algorithm layer satisfies 'within capacity => restored, or justified singular' on every transition; every Repair transition TLC explores is materialised on a real directory (archives from the real par2.Create, goroutines 1/2/3/8) and executed by the real par2.Repair, and each execution is judged by TLC from the logged bytes (Trace_Archive); seeded large sets (up to 128 KiB slices, hundreds of slices, R up to 300, goroutines up to 40, all damage kinds, any subset of volumes lost, a constructed singular case whose determinant TLC recomputes) are judged by Trace_ArchiveBig with ground truth from an observer that TLC cross-checks on every small event.",
+         "Checksums idealised as injective; the large-set ground truth comes from the Go observer (cross-checked by TLC on all small events); scope is bounded/sampled, not a proof.",
+         "DESIGN.md section 5 C01"),
+ "C03": ("model_checking",
+         "Par2Archive.tla/Par2Scan.tla: TLC checks Survivors <= usable <= Occurring etc. on every Verify transition of bounded instances; each Verify transition replayed on real par2.Verify and judged by TLC from logged bytes; large seeded sets judged with observer truth",
+         "TLC checks the Verify truthfulness clauses (usable_sound, usable_complete, counts_total, recovery_count, possible_iff_capacity, clean_implies_intact) on every Verify transition of the bounded Par2Archive instances and on every replay of those transitions through the real par2.Verify (TLC recomputes Survivors/Occurring from the logged bytes), plus on seeded large sets; the small alphabet {0,1,2} makes TLC reach the 'all slices findable but files wrong' patterns by itself.",
+         "Checksums idealised as injective; known finding D5 (clean although files differ when all slices findable) is reported as KNOWN-FINDING, any other violation of clean_implies_intact has its own clause.",
+         "DESIGN.md section 5 C03"),
 }
 
 NOT_YET = "check under construction in this round; not claimed until it runs green on the unchanged tree"
